@@ -56,6 +56,9 @@ def sym(name, sort='R'):
 
 
 # ---------------------------------------------------------------- reals
+ROUND_CONCRETE = [False]
+
+
 class DivByZeroConst(Exception):
     pass
 
@@ -71,6 +74,20 @@ def mk(op, a, b=None):
     ca = is_const(a)
     cb = is_const(b)
     if ca and cb:
+        if ROUND_CONCRETE[0]:
+            # concrete (operand-free) arithmetic follows IEEE double rounding: used where a long concrete computation
+            # (e.g. an ODE integration in a constructor) would otherwise grow rationals without bound
+            fa, fb = float(a), float(b)
+            if op == 'add':
+                return Fraction(fa + fb)
+            if op == 'sub':
+                return Fraction(fa - fb)
+            if op == 'mul':
+                return Fraction(fa * fb)
+            if op == 'div':
+                if fb == 0:
+                    raise DivByZeroConst()
+                return Fraction(fa / fb)
         if op == 'add':
             return Fraction(a) + b
         if op == 'sub':
@@ -383,3 +400,112 @@ def evaluate_all(roots, env, approx=False):
             raise KeyError(f'evaluate: {o}')
         val[t.id] = v
     return val, ufv
+
+
+# ---------------------------------------------------------------- formal differentiation (C19)
+def diff(root, wrt):
+    """d root / d v where wrt maps symbol names to their derivative w.r.t. v (chain rule: e.g. d sin_theta/d theta = cos_theta).
+    Uninterpreted sqrt/exp/log/sin/cos/atan/tanh/pow(x, const) are differentiated by their calculus rules."""
+    if not isinstance(root, Term):
+        return Fraction(0)
+    D = {}
+
+    def g(a):
+        return D[a.id] if isinstance(a, Term) else Fraction(0)
+    for t in reachable([root]):
+        o = t.op
+        a = t.args
+        if o == 'sym':
+            d = wrt.get(a[0], Fraction(0))
+        elif o == 'add':
+            d = mk('add', g(a[0]), g(a[1]))
+        elif o == 'sub':
+            d = mk('sub', g(a[0]), g(a[1]))
+        elif o == 'neg':
+            d = mk('neg', g(a[0]))
+        elif o == 'mul':
+            d = mk('add', mk('mul', g(a[0]), a[1]), mk('mul', a[0], g(a[1])))
+        elif o == 'div':
+            d = mk('div', mk('sub', mk('mul', g(a[0]), a[1]), mk('mul', a[0], g(a[1]))), mk('mul', a[1], a[1]))
+        elif o == 'ite':
+            d = mk_ite(a[0], g(a[1]), g(a[2]), 'R')
+        elif o == 'uf':
+            fn, x = a[0], a[1]
+            dx = g(x)
+            if is_const(dx) and dx == 0 and fn != 'pow':
+                d = Fraction(0)
+            elif fn == 'sqrt':
+                d = mk('div', dx, mk('mul', Fraction(2), t))
+            elif fn == 'exp':
+                d = mk('mul', dx, t)
+            elif fn == 'log':
+                d = mk('div', dx, x)
+            elif fn == 'sin':
+                d = mk('mul', Term('uf', ('cos', x)), dx)
+            elif fn == 'cos':
+                d = mk('neg', mk('mul', Term('uf', ('sin', x)), dx))
+            elif fn == 'atan':
+                d = mk('div', dx, mk('add', Fraction(1), mk('mul', x, x)))
+            elif fn == 'tanh':
+                d = mk('mul', dx, mk('sub', Fraction(1), mk('mul', t, t)))
+            elif fn == 'pow' and is_const(a[2]):
+                e = Fraction(a[2])
+                d = mk('mul', mk('mul', e, Term('uf', ('pow', x, e - 1))), dx)
+            else:
+                raise KeyError(f'diff: no rule for {fn}')
+        else:
+            raise KeyError(f'diff: {o}')
+        D[t.id] = d
+    return D[root.id]
+
+
+# ---------------------------------------------------------------- linear normal form of integer terms
+def int_linear(t):
+    """integer term -> (const, {atom id: (coeff, atom)}) through iadd / isub / imul-by-constant"""
+    if isinstance(t, int):
+        return t, {}
+    if not isinstance(t, Term):
+        return 0, {id(t): (1, t)}
+    o = t.op
+    if o in ('iadd', 'isub'):
+        c1, m1 = int_linear(t.args[0])
+        c2, m2 = int_linear(t.args[1])
+        sg = 1 if o == 'iadd' else -1
+        m = dict(m1)
+        for k, (cf, at) in m2.items():
+            cur = m.get(k, (0, at))[0] + sg * cf
+            if cur == 0:
+                m.pop(k, None)
+            else:
+                m[k] = (cur, at)
+        return c1 + sg * c2, m
+    if o == 'imul':
+        a, b = t.args
+        if isinstance(a, int):
+            c, m = int_linear(b)
+            return a * c, {k: (a * cf, at) for k, (cf, at) in m.items() if a * cf != 0}
+        if isinstance(b, int):
+            c, m = int_linear(a)
+            return b * c, {k: (b * cf, at) for k, (cf, at) in m.items() if b * cf != 0}
+    return 0, {t.id: (1, t)}
+
+
+def int_from_linear(c, m):
+    r = c
+    for k in sorted(m, key=lambda x: x if isinstance(x, int) else 0):
+        cf, at = m[k]
+        r = imk('add', r, imk('mul', cf, at))
+    return r
+
+
+def int_sub_normalised(a, b):
+    ca, ma = int_linear(a)
+    cb, mb = int_linear(b)
+    m = dict(ma)
+    for k, (cf, at) in mb.items():
+        cur = m.get(k, (0, at))[0] - cf
+        if cur == 0:
+            m.pop(k, None)
+        else:
+            m[k] = (cur, at)
+    return int_from_linear(ca - cb, m)
